@@ -265,6 +265,22 @@ fn main() {
                     println!("replay passes (10 attempts; schedule-dependent)");
                     std::process::exit(0);
                 }
+                if let Some(tp) = raw.get("threaded_reopen") {
+                    // schedule-dependent: retried a few times
+                    let rp: e3::ReopenParams = serde_json::from_value(tp.clone()).expect("threaded_reopen parameters");
+                    let dir = driver::scratch_root().join("c03-thr-replay");
+                    for _ in 0..20 {
+                        if let Err(e) = e3::threaded_c03(&dir, &rp) {
+                            if !e.starts_with("INCONCLUSIVE") {
+                                println!("replay fails: {e}");
+                                println!("VIOLATION property={id} replay={file}");
+                                std::process::exit(1);
+                            }
+                        }
+                    }
+                    println!("replay passes (20 attempts; schedule-dependent)");
+                    std::process::exit(0);
+                }
                 let rp: e2drv::E2Replay = serde_json::from_str(&s).expect("E2 replay file");
                 match e2drv::replay_e2(&def, &rp) {
                     Some(msg) => {
